@@ -1,7 +1,7 @@
 (* Correspondence definitions for C07: evaluate the key model on the cases the implementation ran. *)
 From Coq Require Import List NArith ZArith Bool.
 Import ListNotations.
-From GMS Require Import Phys.C07HashKey.
+From GMS Require Import Phys.C07HashKey Phys.C07Ops.
 
 (* rune weights used by the correspondence: code point (binary collations) or ASCII case folding (the generated
    strings are ASCII; only equality of weights matters) *)
@@ -22,7 +22,44 @@ Inductive case :=
 (* number of rows an operator keeps for multi-column input rows (row keys with the NUL separator) *)
 | DedupRowsCase (ci : bool) (sch : list hcol) (rows : list (list hv)) (count : N)
 (* COUNT(DISTINCT ...) over rows *)
-| CdCase (rows : list (list hv)) (count : N).
+| CdCase (rows : list (list hv)) (count : N)
+(* hash.HashOfSimple(a, t) == hash.HashOfSimple(b, t) observed as [same] *)
+| SimpleCase (ci : bool) (t : stype) (a b : hv) (same : bool)
+(* a set operation over two row lists (nil schema, as buildSetOp wires it): 0 INTERSECT, 1 INTERSECT ALL, 2 EXCEPT,
+   3 EXCEPT ALL, 4 UNION; [out] = the rows the engine returned, in order *)
+| SetOpCase (op : N) (ls rs out : list (list hv))
+(* number of rows of  a JOIN b ON a.x = b.y  planned as a hash join whose HashLookup compares under type t *)
+| JoinCase (ci : bool) (t : stype) (xs ys : list hv) (count : N)
+(* number of rows with  x IN (literals)  TRUE, HashInTuple under compare type t *)
+| InCase (ci : bool) (t : stype) (xs lits : list hv) (count : N).
+
+Definition hv_eqb (a b : hv) : bool :=
+  match a, b with
+  | HNull, HNull => true
+  | HInt x, HInt y => Z.eqb x y
+  | HDec m s, HDec m' s' => Z.eqb m m' && N.eqb s s'
+  | HStr x, HStr y => bytes_eqb x y
+  | _, _ => false
+  end.
+Fixpoint list_eqb {X} (e : X -> X -> bool) (a b : list X) : bool :=
+  match a, b with
+  | [], [] => true
+  | x :: a', y :: b' => e x y && list_eqb e a' b'
+  | _, _ => false
+  end.
+
+Definition setop (op : N) (ls rs : list (list hv)) : list (list hv) :=
+  let key := row_key w_bin [] in
+  match op with
+  | 0 => intersect_distinct key bytes_eqb ls rs
+  | 1 => intersect_all key bytes_eqb ls rs
+  | 2 => except_distinct key bytes_eqb (row_key w_bin [] []) ls rs
+  | 3 => except_all key bytes_eqb (row_key w_bin [] []) ls rs
+  | _ => union_distinct key bytes_eqb ls rs
+  end%N.
+
+(* the join condition a.x = b.y: TRUE only between non-NULL '='-equal values *)
+Definition eq_true (w : N -> N) (a b : hv) : bool := negb (is_null a) && negb (is_null b) && sql_eq w a b.
 
 Definition ok (c : case) : bool :=
   match c with
@@ -33,7 +70,16 @@ Definition ok (c : case) : bool :=
   | DedupRowsCase ci sch rows count =>
       N.eqb (N.of_nat (length (dedup (row_key (wsel ci) sch) bytes_eqb rows))) count
   | CdCase rows count =>
-      N.eqb (N.of_nat (length (dedup cd_key bytes_eqb rows))) count
+      N.eqb (N.of_nat (count_distinct rows)) count
+  | SimpleCase ci t a b same =>
+      Bool.eqb (okey_eqb (simple_key (wsel ci) t a) (simple_key (wsel ci) t b)) same
+  | SetOpCase op ls rs out => list_eqb (list_eqb hv_eqb) (setop op ls rs) out
+  | JoinCase ci t xs ys count =>
+      let sk := simple_key (wsel ci) t in
+      N.eqb (N.of_nat (length (hash_join sk sk okey_eqb (eq_true (wsel ci)) xs ys))) count
+  | InCase ci t xs lits count =>
+      let sk := simple_key (wsel ci) t in
+      N.eqb (N.of_nat (length (filter (fun x => match hash_in sk x lits with Some true => true | _ => false end) xs))) count
   end.
 
 Definition mismatches (cs : list (N * case)) : list N :=
